@@ -2,7 +2,7 @@
    queue fails the gate of emitEligibleFrames (it does not fit the stream window or the connection
    window): whatever the receiver's windows permit has already been released. *)
 From FwdLib Require Import Bytes.
-From G09 Require Import Tables H2Relay Ledger FlowBasics WinProofs PairBasics PairWin.
+From G09 Require Import Tables H2Relay Ledger FlowBasics WinProofs PairBasics Lift PairWin.
 Open Scope N_scope.
 
 Definition head_blocked_in (fl : flow) (o : obuf) : Prop :=
@@ -114,11 +114,12 @@ Section Codec.
 
   Notation relay := (relay dstate estate).
   Notation pair := (pair dstate estate).
+  Notation pcore := (pcore dec dresize).
   Notation pstep := (pstep dec enc dresize eresize).
   Notation run := (H2Relay.run dec enc dresize eresize).
 
   Lemma apply_settings_NS : forall l orders (peer : relay) acc,
-    NS (r_flow peer) -> NS (r_flow (fst (fst (apply_settings dresize eresize l orders peer acc)))).
+    NS (r_flow peer) -> NS (r_flow (fst (fst (apply_settings dresize l orders peer acc)))).
   Proof.
     induction l as [|[k v] rest IH]; intros orders peer acc H; cbn [apply_settings]; [exact H|].
     destruct (settings_validated && negb (setting_valid k v)); [exact H|].
@@ -131,12 +132,12 @@ Section Codec.
 
   Ltac keep HF HO := rewrite ?res_toward_from, ?res_toward_other; (split; [exact HF|exact HO]).
 
-  Lemma step_NS (p : pair) from f orders :
+  Lemma core_NS (p : pair) from f orders :
     NS (r_flow (toward from p)) -> NS (r_flow (toward (other from) p)) ->
-    NS (r_flow (toward from (s_pair (pstep p from f orders)))) /\
-    NS (r_flow (toward (other from) (s_pair (pstep p from f orders)))).
+    NS (r_flow (toward from (s_pair (pcore p from f orders)))) /\
+    NS (r_flow (toward (other from) (s_pair (pcore p from f orders)))).
   Proof.
-    intros HF HO. unfold pstep. cbv zeta. set (me := toward (other from) p) in *. set (peer := toward from p) in *.
+    intros HF HO. unfold pcore. cbv zeta. set (me := toward (other from) p) in *. set (peer := toward from p) in *.
     destruct f as [id es d flen|id es eh pr frag|id eh frag|id pm eh frag|id pr|id code|ack st|ack d|last code dbg|id inc|].
     - destruct (data_pieces _ _ id d es) as [ps|]; [|keep HF HO].
       assert (H0 : NS (with_buf (r_flow me) id (buf_or_new (r_flow me) id))).
@@ -146,18 +147,18 @@ Section Codec.
       pose proof (enqueue_all_NS ps _ H0) as H1. destruct (enqueue_all ps _) as [fl em]. cbn [fst] in H1.
       rewrite res_toward_from, res_toward_other. split; [exact HF|exact H1].
     - destruct eh; [|keep HF HO]. destruct (dec _ frag) as [[fields|] dst']; [|keep HF HO].
-      destruct (r_header _ _ _ _ _ _) as [[[me' em] q]|] eqn:Eh; [|keep HF HO].
+      destruct (r_header _ _ _ _ _) as [[[me' em] q]|] eqn:Eh; [|keep HF HO].
       apply r_header_flow in Eh as [Ee _]. cbn [r_flow] in Ee.
       pose proof (enqueue_emit_NS q (r_flow me) HO) as H1. rewrite Ee in H1.
       rewrite res_toward_from, res_toward_other. split; [exact HF|exact H1].
     - destruct eh; [|keep HF HO]. destruct (dec _ _) as [[fields|] dst']; [|keep HF HO].
       cbn [r_cont]. destruct (r_cont me); [|keep HF HO].
-      destruct (complete _ _ _ _) as [[[me' em] q]|] eqn:Eh; [|keep HF HO].
+      destruct (complete _ _ _) as [[[me' em] q]|] eqn:Eh; [|keep HF HO].
       apply complete_flow in Eh as [Ee _]. cbn [r_flow] in Ee.
       pose proof (enqueue_emit_NS q (r_flow me) HO) as H1. rewrite Ee in H1.
       rewrite res_toward_from, res_toward_other. split; [exact HF|exact H1].
     - destruct eh; [|keep HF HO]. destruct (dec _ frag) as [[fields|] dst']; [|keep HF HO].
-      destruct (r_push _ _ _ _ _) as [[[me' em] q]|] eqn:Eh; [|keep HF HO].
+      destruct (r_push _ _ _ _) as [[[me' em] q]|] eqn:Eh; [|keep HF HO].
       apply r_push_flow in Eh as [Ee _]. cbn [r_flow] in Ee.
       pose proof (enqueue_emit_NS q (r_flow me) HO) as H1. rewrite Ee in H1.
       rewrite res_toward_from, res_toward_other. split; [exact HF|exact H1].
@@ -167,13 +168,24 @@ Section Codec.
       destruct (enqueue_emit _ _) as [fl em]. rewrite res_toward_from, res_toward_other. split; [exact HF|exact H1].
     - destruct ack; [keep HF HO|].
       pose proof (apply_settings_NS st orders peer [] HF) as H1.
-      destruct (apply_settings _ _ _ _ _ _) as [[peer' acc'] ok]. cbn [fst] in H1.
+      destruct (apply_settings _ _ _ _ _) as [[peer' acc'] ok]. cbn [fst] in H1.
       destruct ok; rewrite res_toward_from, res_toward_other; (split; [exact H1|exact HO]).
     - keep HF HO.
     - keep HF HO.
     - pose proof (update_window_NS id inc (hd [] orders) (r_flow peer) HF) as H1.
       destruct (update_window _ _ _ _) as [fl em]. rewrite res_toward_from, res_toward_other. split; [exact H1|exact HO].
     - keep HF HO.
+  Qed.
+
+  Lemma step_NS (p : pair) from f orders :
+    NS (r_flow (toward from p)) -> NS (r_flow (toward (other from) p)) ->
+    NS (r_flow (toward from (s_pair (pstep p from f orders)))) /\
+    NS (r_flow (toward (other from) (s_pair (pstep p from f orders)))).
+  Proof.
+    intros HF HO.
+    rewrite (proj1 (pstep_flow dstate estate dec enc dresize eresize p from f orders from)),
+            (proj1 (pstep_flow dstate estate dec enc dresize eresize p from f orders (other from))).
+    apply core_NS; assumption.
   Qed.
 
   Theorem run_NS : forall evs (p : pair), NS (r_flow (toC p)) -> NS (r_flow (toS p)) ->
